@@ -91,6 +91,43 @@ pub fn replay(args: &[String]) {
                 Err(m) => s.violation("inc:panic", format!("State::inc at serial {base} panicked: {m}"), c.clone()),
             }
         }
+        // wire conversion where it happens: every PDU that carries a serial number puts it on the wire big-endian (octets 8..12) and
+        // hands the same number back through each of its accessors
+        for base in [a, b, a ^ 0x00FF_00FF] {
+            use rpki::rtr::pdu;
+            use rpki::rtr::payload::Timing;
+            let st = rpki::rtr::state::State::from_parts(0x4321, Serial(base));
+            let r = guarded(|| -> Vec<(&'static str, Vec<u8>, Vec<u32>)> {
+                let sn = pdu::SerialNotify::new(1, st);
+                let sq = pdu::SerialQuery::new(2, st);
+                let e0 = pdu::EndOfDataV0::new(st);
+                let e1 = pdu::EndOfDataV1::new(1, st, Timing::default());
+                let g0 = pdu::EndOfData::new(0, st, Timing::default());
+                let g2 = pdu::EndOfData::new(2, st, Timing::default());
+                let bytes = |x: &dyn AsRef<[u8]>| x.as_ref().to_vec();
+                vec![
+                    ("SerialNotify", bytes(&sn), vec![]),
+                    ("SerialQuery", bytes(&sq), vec![]),
+                    ("SerialQueryPayload", { let mut v = vec![0u8; 8]; v.extend_from_slice(pdu::SerialQueryPayload::new(Serial(base)).as_ref()); v }, vec![pdu::SerialQueryPayload::new(Serial(base)).serial().0]),
+                    ("EndOfDataV0", bytes(&e0), vec![e0.serial().0]),
+                    ("EndOfDataV1", bytes(&e1), vec![e1.serial().0]),
+                    ("EndOfData(v0)", bytes(&g0), vec![g0.serial().0, g0.state().serial().0]),
+                    ("EndOfData(v2)", bytes(&g2), vec![g2.serial().0, g2.state().serial().0]),
+                ]
+            });
+            match r {
+                Err(m) => s.violation("wire:pdu:panic", m, c.clone()),
+                Ok(v) => for (name, bytes, got) in v {
+                    if bytes.len() < 12 || bytes[8..12] != base.to_be_bytes() {
+                        s.violation("wire:pdu:bytes", format!("{name} with serial {base:#010x} has octets 8..12 = {:02x?}", &bytes[8..12.min(bytes.len())]), c.clone());
+                    }
+                    if got.iter().any(|x| *x != base) {
+                        s.violation("wire:pdu:accessor", format!("{name} with serial {base:#010x} hands back {got:x?}"), c.clone());
+                    }
+                },
+            }
+            s.evals(1);
+        }
         // the largest permitted increment, natively (2^31-1 is not a multiple of 2^(32-W))
         for base in [a, b] {
             match guarded(|| Serial(base).add(0x7FFF_FFFF)) {
